@@ -162,6 +162,12 @@ class ModuleInfo:
             except Exception as e:                      # pragma: no cover
                 self.decomposition_log.append('%s: normalisation skipped (%r)' % (name, e))
                 self.tree = ast.parse(text)
+            else:
+                try:
+                    from .inline import restore_state_parameters
+                    self.decomposition_log += restore_state_parameters(self.tree, name)
+                except Exception as e:                  # pragma: no cover
+                    self.decomposition_log.append('%s: step P (state parameters) skipped (%r)' % (name, e))
         self.sha256 = hashlib.sha256(text.encode()).hexdigest()
         self.imports: Dict[str, str] = {}     # local name -> dotted target
         self.star_imports: List[str] = []
@@ -307,6 +313,14 @@ class Program:
                     trees[name] = ast.parse(text)
                 except SyntaxError as e:
                     raise AnalysisError('cannot parse %s: %s' % (rel, e))
+            # step T: named tuples are tuples (constructions become displays, loops over them unpack the fields)
+            try:
+                from .namedtuples import erase_named_tuples
+                for name, extra in erase_named_tuples(trees).items():
+                    logs[name] = logs.get(name, []) + extra
+            except Exception as e:                      # pragma: no cover
+                logs.setdefault('yatiml', []).append('step T skipped (%r)' % (e,))
+                trees = {name: ast.parse(text) for name, text in sources.items()}
             # step M: memo cells are analysed on the raw trees (E14) and then eliminated - the program is read as if every lookup missed
             self.memo = None
             try:
@@ -329,7 +343,11 @@ class Program:
                 try:
                     logs[name] = logs.get(name, []) + inline.restore_renamed(trees[name], name)
                     logs[name] += inline.restore_renamed_attributes(trees[name], name)
+                    logs[name] += inline.restore_private_properties(trees[name], name)
+                    logs[name] += inline.restore_instance_methods(trees[name], name)
+                    logs[name] += inline.restore_projected_parameters(trees[name], name)
                     logs[name] += inline.restore_parameter_order(trees[name], name)
+                    logs[name] += inline.restore_state_parameters(trees[name], name)
                 except Exception as e:                  # pragma: no cover
                     trees[name] = ast.parse(text)
                     inline.PROTECTED[id(trees[name])] = set()
